@@ -517,6 +517,9 @@ func TestC18Converges(t *testing.T) {
 }
 
 func TestReplay(t *testing.T) {
+	if os.Getenv("C18_TRACE") != "" {
+		csim.TraceFn = func(l string) { fmt.Println("TRACE", l) }
+	}
 	p := os.Getenv("VERIF_REPLAY_CASE")
 	if p == "" {
 		t.Skip("no VERIF_REPLAY_CASE")
